@@ -45,8 +45,9 @@ PROPFIND_ALL = ('<?xml version="1.0"?><D:propfind xmlns:D="DAV:"><D:prop><D:gete
 
 def pre_build():
     import skeleton
-    sk, notes = skeleton.generate("/repo")
-    skeleton.write_lean(sk, os.path.join(VERIF, "lean", "Generated", "Skeleton.lean"))
+    sk, do, notes = skeleton.generate("/repo", with_do=True)
+    calls, imports = skeleton.xml_parser_calls("/repo")
+    skeleton.write_lean(sk, os.path.join(VERIF, "lean", "Generated", "Skeleton.lean"), do, calls, imports)
 
 
 def extra_kinds():
